@@ -443,6 +443,7 @@ type FuncContract struct {
 	Rely     []Clause // two-state relation every interference step of other goroutines satisfies
 	Shared   []string // ghost fields other goroutines may change (havocked at yield points under Rely)
 	Uses     []string // lemmas assumed in this function's VC (each discharged on its own)
+	Forbid   []Clause // `forbid [label] call <name>`: the function and its closures contain no such call
 	Key      string
 	File     string
 	Line     int
@@ -503,7 +504,7 @@ var keywords = map[string]bool{
 	"func": true, "stub": true, "property": true, "returns": true, "requires": true, "ensures": true,
 	"modifies": true, "inline": true, "trusted": true, "ghost": true, "loop": true, "invariant": true,
 	"decreases": true, "at": true, "lemma": true, "spec": true, "assume": true, "pragma": true, "axiom": true,
-	"before": true, "ghostfield": true, "uses": true, "rely": true, "shared": true, "guarded": true, "atomic": true,
+	"before": true, "ghostfield": true, "uses": true, "forbid": true, "rely": true, "shared": true, "guarded": true, "atomic": true,
 }
 
 func firstWord(s string) (string, string) {
@@ -799,6 +800,16 @@ func (sp *Specs) ParseSpecFile(path string) error {
 				for _, u := range strings.Split(rest, ",") {
 					cur.Shared = append(cur.Shared, strings.TrimSpace(u))
 				}
+			case "forbid":
+				// forbid [label] call Name
+				c := Clause{Text: rest}
+				if strings.HasPrefix(rest, "[") {
+					if i := strings.Index(rest, "]"); i > 0 {
+						c.Label = strings.TrimSpace(rest[1:i])
+						c.Text = strings.TrimSpace(rest[i+1:])
+					}
+				}
+				cur.Forbid = append(cur.Forbid, c)
 			case "uses":
 				for _, u := range strings.Split(rest, ",") {
 					cur.Uses = append(cur.Uses, strings.TrimSpace(u))
@@ -819,7 +830,7 @@ func (sp *Specs) ParseSpecFile(path string) error {
 				}
 				cur.Pragmas[k] = v
 				switch k + " " + v {
-				case "frame off", "nooverflow skip", "fdiv unchecked", "floats real":
+				case "frame off", "nooverflow skip", "fdiv unchecked", "floats real", "unknowncalls havoc", "obligations contract":
 					sp.Scan = append(sp.Scan, fmt.Sprintf("pragma %s %s in %s (%s:%d)", k, v, cur.Key, shortPath(path), l.no))
 				}
 				if k == "wraps" {
